@@ -9,7 +9,7 @@ Oracle : partition by linear scan with == (no dict, independent of hashing): eve
          to_list the output is the groups in that order; with a per-item pipeline the output is in
          source order.
 """
-from ..common import Check, Outcome, bootstrap, norm, with_prelude, prelude_tags, shrink_prelude, PRELUDE_TAGS, PRELUDE_RULE
+from ..common import Check, Outcome, bootstrap, norm, with_prelude, with_reuse, prelude_tags, shrink_prelude, PRELUDE_TAGS, PRELUDE_RULE
 from .. import windows, model, progs
 
 rs = bootstrap()
@@ -33,17 +33,23 @@ class C04(Check):
     RULE += PRELUDE_RULE
     ASSUMPTIONS = ['keys are hashable and == is an equivalence on them (NaN / unhashable keys are outside the statement)']
     ANCHORS = ['rxsci/operators/group_by.py', 'rxsci/operators/multiplex.py', 'rxsci/state/memory_store.py']
-    REQUIRED_TAGS = ['top', 'group', 'roll', 'roll_eq', 'split', 'key=kt', 'key=ks', 'key=kbig', 'key=kf', 'key=kmix', 'key=kneg', 'key=kmers', 'key=ktneg', 'key=knp', 'key=kcent', 'key=kobj', 'equal-items-different-keys', 'per-item', 'to_list',
-                     'many-keys', 'empty', 'over-256-keys'] + PRELUDE_TAGS
+    REQUIRED_TAGS = ['top', 'group', 'roll', 'roll_eq', 'split', 'key=kt', 'key=ks', 'key=kbig', 'key=kf', 'key=kmix', 'key=kneg', 'key=kmers', 'key=ktneg', 'key=knp', 'key=kcent', 'key=kobj', 'equal-items-different-keys', 'over-65536-keys', 'per-item', 'to_list',
+                     'many-keys', 'empty', 'over-256-keys'] + ['operator-object-used-in-two-pipelines'] + PRELUDE_TAGS
     REQUIRED_OBSERVED = ['child_lifetimes_checked', 'parent_lifetimes_checked', 'groups_flushed_at_completion']
 
     def generate(self, rng, tier, shard, nshards):
-        return with_prelude(self._generate(rng, tier, shard, nshards), rng)
+        return with_prelude(with_reuse(self._generate(rng, tier, shard, nshards)), rng)
 
     def _generate(self, rng, tier, shard, nshards):
         k = 2600 if tier == 'quick' else 10 ** 7
         names = ['top', 'group', 'roll', 'roll_eq', 'split', 'group>roll', 'roll>group', 'top']
         for j in range(k):
+            if j == 40 or (tier == 'thorough' and j % 4000 == 40):
+                # more than 65536 groups open at the same time (a high-cardinality key): 16-bit index fields, free lists, block walks
+                n_keys = 66000 + rng.randint(0, 3000)
+                yield {'key': 'mod:%d' % (n_keys + 7), 'parent': 'top', 'parent_node': None, 'items': list(range(n_keys)) + [5, 70, 65540], 'inner': 'per-item',
+                       'watchdog_s': 300}
+                continue
             name = names[j % len(names)]
             nk = rng.choice([1, 2, 3, 5, 8, 40, 200]) if j % 60 != 6 else rng.choice([300, 1000])
             n = rng.choice([0, 1, 3, 10, 30, 80, 200, 400]) if nk >= 40 else rng.choice([0, 1, 3, 10, 30, 80])
@@ -66,6 +72,27 @@ class C04(Check):
         out = Outcome()
         items = case['items']
         keyf = progs.fn(case['key'])
+        if len(items) > 60000:
+            # the light form for very many groups: every group's per-item output, in source order, and a clean completion
+            # (the three-tap observation is quadratic in the number of groups)
+            out.tags += ['top', 'key=mod', 'per-item', 'over-65536-keys']
+            out.nontrivial = True
+            import rx
+            from ..common import Snap, subscribe
+            snap = subscribe(rx.from_(items).pipe(rs.state.with_memory_store([rs.ops.group_by(keyf, [rs.ops.map(lambda x: x + 100), rs.ops.count()])])), Snap())
+            if snap.err is not None or not snap.done:
+                return out.fail('group_by:stream-error', error=repr(snap.err), done=snap.done, groups=len(set(keyf(x) for x in items)))
+            seen = {}
+            want = []
+            for x in items:
+                seen[keyf(x)] = seen.get(keyf(x), 0) + 1
+                want.append(seen[keyf(x)])
+            out.observed['parent_lifetimes_checked'] += 1
+            out.observed['groups_flushed_at_completion'] += len(seen)
+            if snap.out != want:
+                k_ = next((i for i, (a, b) in enumerate(zip(snap.out, want)) if a != b), min(len(snap.out), len(want)))
+                return out.fail('group_by:per-group-count-differs', first_difference=k_, got=snap.out[k_:k_ + 5], want=want[k_:k_ + 5], n_got=len(snap.out), n_want=len(want))
+            return out
         if case.get('itemform'):
             nk_ = max(1, min(case['nk'], 5))
             items = [(x % nk_, [1, 1.0, True][(x // nk_) % 3]) for x in items]
@@ -74,7 +101,9 @@ class C04(Check):
         if not items:
             out.tags.append('empty')
         inner = [['to_list']] if case['inner'] == 'to_list' else [['map', 'add:100']]
-        ob = windows.observe(case['parent_node'], ['group_by', case['key'], None], items, inner=inner, prelude=case.get('prelude'))
+        if case.get('reuse'):
+            out.tags.append('operator-object-used-in-two-pipelines')
+        ob = windows.observe(case['parent_node'], ['group_by', case['key'], None], items, inner=inner, prelude=case.get('prelude'), reuse=bool(case.get('reuse')))
         prelude_tags(case, out)
         if ob.snap.err is not None or not ob.snap.done:
             return out.fail('group_by:stream-error', error=repr(ob.snap.err), done=ob.snap.done)
@@ -93,6 +122,8 @@ class C04(Check):
                 out.tags.append('many-keys')
             if len(exp) > 256:
                 out.tags.append('over-256-keys')
+            if len(exp) > 65536:
+                out.tags.append('over-65536-keys')
             if windows.check_partition(out, ob, p, exp, 'group_by', check_outputs=(case['inner'] == 'to_list')):
                 return out
             if case['inner'] != 'to_list':
